@@ -338,9 +338,10 @@ static void gc_mark(GCHeader* header) {
             DynArray* arr = (DynArray*)obj;
             ElementType elem_type = dyn_array_get_elem_type(arr);
             
-            /* If array contains GC objects (arrays or structs), mark them */
-            /* Note: Arrays of GC objects store pointers to those objects */
-            if (elem_type == ELEM_ARRAY || elem_type == ELEM_STRUCT) {
+            /* If array contains GC objects (nested arrays), mark them */
+            /* Note: ELEM_ARRAY stores pointers; ELEM_STRUCT stores the structs inline
+             * (dyn_array_push_struct), elem_size bytes each - not pointers */
+            if (elem_type == ELEM_ARRAY) {
                 int64_t len = dyn_array_length(arr);
                 /* For object arrays, data is an array of pointers */
                 void** ptr_data = (void**)arr->data;
